@@ -50,6 +50,9 @@ import numpy as np  # noqa: E402
 from verifpy import (Unit, Result, SEED, TIER, WORK, JOBS, param, run, parallel_map, replay_requested,  # noqa: E402
                      load_replay)
 import C43_catalog as K  # noqa: E402
+import verifpy as _V  # noqa: E402
+
+K.KNOWN_KEYS = set(_V.KNOWN)
 
 TOL = 1.0e-5
 HS = [1.0e-7, 1.0e-8]
@@ -465,7 +468,7 @@ def gen_loading(rng, cfg, li, force_theta=None):
 
 
 def _pool(prefix, names):
-    return [n for n in names if prefix + n not in K.NOT_IN_POOL]
+    return [n for n in names if prefix + n not in K.not_in_pool()]
 
 
 def sample_flow(rng, porous_ok=True):
@@ -512,7 +515,7 @@ def all_values():
     v = {"sp:" + s for s in K.STRESS_POTENTIALS} | {"crit:" + c for c in K.CRITERIA} | {"flow:" + f for f in K.FLOWS}
     v |= {"iso:" + i for i in K.ISO_CHOICES} | {"kin:" + k for k in K.KIN_CHOICES} | {"nuc:" + n for n in K.NUCLEATION}
     v |= {"nuc:None", "flows:2", "elastic_porosity"} | {"fcrit:" + c for c in K.FLOW_CRITERIA}
-    return v - K.NOT_IN_POOL
+    return v - K.not_in_pool()
 
 
 def covering_configs(n, seed):
@@ -582,7 +585,7 @@ def expand_scales(case, parameters):
     """scale_seed -> explicit factors (needs the parameter list of the built library)"""
     cfg = case["prog"].get("cfg", {})
     # Drucker 1949 / Cazacu 2001 stay at c = 1 in the pool (known findings for c != 1)
-    drucker = any(c in (fl["crit"], fl.get("fcrit")) for fl in cfg.get("flows", []) for c in ("Drucker1949", "Cazacu2001"))
+    drucker = K.c_is_frozen(cfg)
     for L in case["loadings"]:
         if "scale_seed" in L and "scale" not in L:
             r = random.Random(L["scale_seed"])
